@@ -22,7 +22,7 @@ func symArgs(m *Machine, a []Value) bool {
 func orReal(name string, model stubFn) stubFn {
 	return func(m *Machine, c *frame, fn *ssa.Function, a []Value) Value {
 		if !symArgs(m, a) {
-			if fn.Blocks == nil && fn.Pkg != nil {
+			if fn.Pkg != nil { // Build is once-guarded and waits for a build in progress on another worker
 				fn.Pkg.Build()
 			}
 			return m.callSSA(c, fn, a, nil)
